@@ -1004,6 +1004,25 @@ def check_c37(A: Analysis, col: Collector):
             ok_sorted = len(others) == 1
         if rets and rest_list and norm(rets[0].value.elts[1]) == rest_list and rest_list != emitted_list:
             ok_rest = True
+    elif len(ps) >= 2 and not loops:
+        # comprehension form: emitted = [n for n in <list> if not preds[n.name]]; rest = [n for n in <list> if preds[n.name]]
+        comps = [(n.targets[0].id, n.value) for n in walk_own(srt.node) if isinstance(n, ast.Assign) and isinstance(n.targets[0], ast.Name) and isinstance(n.value, ast.ListComp) and len(n.value.generators) == 1 and norm(n.value.generators[0].iter) == ps[0] and isinstance(n.value.elt, ast.Name) and isinstance(n.value.generators[0].target, ast.Name) and n.value.elt.id == n.value.generators[0].target.id]
+        rets = [n for n in walk_own(srt.node) if isinstance(n, ast.Return) and isinstance(n.value, ast.Tuple) and len(n.value.elts) == 2]
+        for nm, comp in comps:
+            v = comp.generators[0].target.id
+            ifs = comp.generators[0].ifs
+            if len(ifs) == 1 and norm(ifs[0]) == f"not {ps[1]}[{v}.name]":
+                emitted_list = nm
+            elif len(ifs) == 1 and norm(ifs[0]) == f"{ps[1]}[{v}.name]":
+                rest_list = nm
+        if emitted_list and rest_list:
+            col.ok("C37.emit", "a pass visits every unsorted node once (two complementary comprehensions over the unsorted list)", A.loc(srt.node))
+            if rets and norm(rets[0].value.elts[0]) == emitted_list and not any(isinstance(c.func, ast.Attribute) and c.func.attr in ("append", "extend", "insert") and norm(c.func.value) == emitted_list for c in A.calls(srt)):
+                ok_sorted = True
+            if rets and norm(rets[0].value.elts[1]) == rest_list:
+                ok_rest = True
+        else:
+            col.fail("C37.emit", srt.qualname, "pass-iteration", "a pass does not iterate the whole unsorted list", A.loc(srt.node))
     else:
         col.fail("C37.emit", srt.qualname, "pass-iteration", "a pass does not iterate the whole unsorted list", A.loc(srt.node))
     if ok_sorted:
